@@ -69,6 +69,18 @@ def run_case(ctx, case):
     if v != ("ok", "yes"):
         rec.violation("clean changed the curve as a function", case, oracle=ser(v), cleaned=ser(Y))
         return
+    # recorded finding (KNOWN_FINDINGS.txt): the smallest description has weights of both signs and some intermediate description
+    # on the way down has a control weight that is exactly zero — not representable, so that removal is refused, the loop moves on
+    # and never comes back: clean() stops early although every added knot is exactly removable, and a second clean() removes more
+    mixed = M[2] is not None and any(w < 0 for w in M[2]) and any(w > 0 for w in M[2])
+    if mixed and len(Y[0]) > len(M[0]):
+        c2 = make_curve(*Y)
+        impl(lambda: c2.clean())
+        if len(curve_state(c2)[0]) < len(Y[0]):
+            rec.violation("clean() stopped early (a removal passed through a description with a zero control weight); a second clean() "
+                          "removes more: not idempotent, removable knots left", case, cleaned=ser(Y[0]), second=ser(curve_state(c2)[0]),
+                          finding_key="clean-blocked-by-zero-control-weight")
+            return
     t9 = F(1, 10**9)
     if order == "clean":
         mm = drv.call("curve.clean", *curve_args(*sx), t9)
@@ -78,7 +90,10 @@ def run_case(ctx, case):
         for op in seq:
             st = model_curve_state(mm[1])
             mm = drv.call(op, *curve_args(*st), t9) if op == "curve.degclean" else drv.call(op, *curve_args(*st), None, t9)
-    l2(rec, "curve.clean", case, Y, mm, mm[0] == "ok" and model_curve_state(mm[1]) == Y)
+    if not mixed:
+        # (the refusal of descriptions with a zero control weight is not part of the model: for minimal forms with weights of both
+        # signs the model's clean is not tied to the implementation; function equality and the size bound are still judged)
+        l2(rec, "curve.clean", case, Y, mm, mm[0] == "ok" and model_curve_state(mm[1]) == Y)
     if M[2] is None:
         mk = drv.call("rf.minimal", *curve_args(*sx))
         l3(rec, "rf.minimal")
@@ -182,6 +197,11 @@ def run(ctx):
             P = P[: (n + 1) // 2] + P[: n // 2][::-1]            # symmetric control polygon
         tol = None if i % 3 == 1 else (F(1, 10 ** rng.choice([3, 4, 6])) if i % 3 == 2 else "adaptive")
         run_special(ctx, ser(dict(kind="special", U=U, P=P, W=None, tol=tol, which=rng.choice(["clean", "knot_clean", "degree_clean"]))))
+    # corpus: witness of the recorded finding (weights 1, -1/4, 1 on [-2, 1] refined at -11/10 and -7/5)
+    run_case(ctx, ser(dict(kind="clean", U=[F(-2)] * 3 + [F(1)] * 3, P=[(F(11, 4),), (F(-1),), (F(5),)], W=[F(1), F(-1, 4), F(1)],
+                           X=dict(U=[F(-2)] * 3 + [F(-7, 5), F(-11, 10)] + [F(1)] * 3,
+                                  P=[(F(11, 4),), (F(3),), (F(129, 35),), (F(67, 5),), (F(5),)], W=[F(1), F(3, 4), F(21, 40), F(1, 8), F(1)]),
+                           hist=[("insert", [F(-11, 10), F(-7, 5)])], order="clean", twin=False)))
     for i in range(budget(ctx, 8, 80)):
         # rational curves whose smallest description has weights of both signs (weight function without zero, e.g. 1, -1/10, 1)
         # while every refined / elevated description has positive weights only
